@@ -328,6 +328,7 @@ RULES = [
 def rule_inventory(ctx):
     from . import inventory
     inventory.check(ctx, ['seq-future-build', 'file:seq_futures'])
+    inventory.check_narrowing(ctx)
 
 
 RULES.append(("C07.g", "state-mutation inventory: no new site that changes the content of the state this property rests on", rule_inventory))
